@@ -113,6 +113,10 @@ the contextual `EpochVerifier`, state unchanged; `nrewind <k>`: continue on the 
 structure NodeSt where
   cur : Option ChainSt := none
   hist : List ChainSt := []
+  -- `secondary_epoch_reward` of the consensus (12th `ninit` argument; the default constant otherwise)
+  sec : Nat := SECONDARY_EPOCH_REWARD
+  -- the branch left by the last `nrewind` (its tip state and kept history): `nback` returns to it
+  saved : Option (ChainSt × List ChainSt) := none
 
 def stepNode (st : NodeSt) (ts : List String) : NodeSt × String :=
   match ts with
@@ -127,6 +131,12 @@ def stepNode (st : NodeSt) (ts : List String) : NodeSt × String :=
             cur := { number := 0, base, rem, prevHR := hr, start := 0, length := len, compact },
             lastEndTs := gts, lastEndTU := 0, tu := 0, tipNumber := 0, tipTs := gts }
         ({ cur := some s0, hist := [] }, "ok")
+      | "ninit", [T, initial, halving, ortN, ortD, base, rem, hr, len, compact, gts, sec] =>
+        let s0 : ChainSt :=
+          { P := { T, initial, halving, ortN, ortD },
+            cur := { number := 0, base, rem, prevHR := hr, start := 0, length := len, compact },
+            lastEndTs := gts, lastEndTU := 0, tu := 0, tipNumber := 0, tipTs := gts }
+        ({ cur := some s0, hist := [], sec := sec }, "ok")
       | "nb", [number, t, nunc] =>
         (match st.cur with
          | none => (st, "bad-op")
@@ -137,7 +147,8 @@ def stepNode (st : NodeSt) (ts : List String) : NodeSt × String :=
            | some (s', field, compact, head) =>
              let e := s'.cur
              let tail := if head then s!" E {e.number} {e.base} {e.rem} {hx e.prevHR} {e.start} {e.length}" else ""
-             ({ cur := some s', hist := (s :: st.hist).take 4096 }, s!"{field} {compact} R {optNat (tipBlockReward s')}{tail}"))
+             ({ st with cur := some s', hist := (s :: st.hist).take 4096 },
+              s!"{field} {compact} R {optNat (tipBlockReward s')} S {optNat (tipSecondaryIssuance s' st.sec)}{tail}"))
       | "nv", [hEpoch, hCompact] =>
         (match st.cur with
          | none => (st, "bad-op")
@@ -149,9 +160,13 @@ def stepNode (st : NodeSt) (ts : List String) : NodeSt × String :=
                 | some .targetMismatch => "target-mismatch"))
       | "nrewind", [k] =>
         if k = 0 then (st, "ok") else
-        (match st.hist.drop (k - 1) with
-         | s :: rest => ({ cur := some s, hist := rest }, "ok")
-         | [] => (st, "bad-op"))
+        (match st.cur, st.hist.drop (k - 1) with
+         | some tip, s :: rest => ({ st with cur := some s, hist := rest, saved := some (tip, st.hist) }, "ok")
+         | _, _ => (st, "bad-op"))
+      | "nback", [] =>
+        (match st.cur, st.saved with
+         | some tip, some (s, h) => ({ st with cur := some s, hist := h, saved := some (tip, st.hist) }, "ok")
+         | _, _ => (st, "bad-op"))
       | _, _ => (st, "bad-op")
   | _ => (st, "bad-op")
 
